@@ -2,7 +2,8 @@
 (* C12 -- stream state tokens are unforgeable, identity-bound and opaque: the decision table for ONE
    continuation / cancel request whose cursor or call token has been manipulated.
 
-     which   which token was manipulated              "cursor" | "call"
+     which   which token was manipulated              "cursor" | "call" | "both" (a complete, mutually consistent
+             cursor + call pair that is not the caller's: minted for another identity or under another key)
      mut     how                                      "none" | "flip" | "trunc" | "extend" | "reencode" (different
              base64 text, same bytes) | "garbage" | "swapkind" (the other kind of token in this slot) |
              "swapstream" (same kind, same identity, another stream) | "foreignkey" | "crossident" | "absent" |
@@ -16,12 +17,13 @@
 
    Served(c) -- the only rows that may be served: nothing manipulated and not expired.                       *)
 EXTENDS Naturals, FiniteSets
-Whichs == {"cursor", "call"}
+Whichs == {"cursor", "call", "both"}
 Muts == {"none", "flip", "trunc", "extend", "reencode", "garbage", "swapkind", "swapstream", "foreignkey",
          "crossident", "absent", "stale"}
 Ages == {"lt", "eq", "gt"}
 Cases == {c \in [which : Whichs, mut : Muts, age : Ages, cache : {"warm", "cold"}, op : {"continue", "cancel"}, ttl : {"on", "off"}] :
              /\ c.mut = "stale" => (c.which = "call" /\ c.age = "lt" /\ c.ttl = "on")
+             /\ c.which = "both" => c.mut \in {"crossident", "foreignkey"}
              /\ c.ttl = "off" => c.age \in {"lt", "gt"}}
 Served(c) == c.mut = "none" /\ (c.age # "gt" \/ c.ttl = "off")
 Expected(c) == [served |-> Served(c)]
